@@ -86,8 +86,8 @@ Rules(pre, post, ev) ==
       cur(ph) == IF ph = 1 /\ ev.kind = "modify" THEN post ELSE pre
   IN << [rule |-> "reserve", when |-> <<IsCmd(34)>>, effects |-> <<Inc("resv"), Set("valid", 1)>>,
          datagrams |-> Reply(DynMsgRsp(11, 34, 0, State16("resv")))],
-        [rule |-> "info-pre", when |-> <<IsCmd(32)>>, ifstate |-> St("phase", 0), datagrams |-> Reply(InfoMsg(pre, t1, t2))],
-        [rule |-> "info-post", when |-> <<IsCmd(32)>>, ifstate |-> St("phase", 1), datagrams |-> Reply(InfoMsg(cur(1), tA, tE))] >>
+        [rule |-> "info-pre", when |-> <<IsCmd(32)>>, ifstate |-> St("phase", 0), effects |-> <<Inc("i")>>, datagrams |-> Reply(InfoMsg(pre, t1, t2))],
+        [rule |-> "info-post", when |-> <<IsCmd(32)>>, ifstate |-> St("phase", 1), effects |-> <<Inc("i")>>, datagrams |-> Reply(InfoMsg(cur(1), tA, tE))] >>
      \o trigger \o
      << \* a request with a reservation that is not the current valid one: partial reads must be refused; offset-0 reads as configured
         [rule |-> "stale-partial", when |-> <<IsCmd(35)>>, ifstate |-> St("valid", 0), effects |-> <<Inc("n")>>,
@@ -103,7 +103,7 @@ Rules(pre, post, ev) ==
 Script(id, pre, post, ev) ==
   [id |-> id, prefix |-> "hs",
    info |-> [family |-> "sdr", insess |-> TRUE, integLen |-> S.integLen, bmcSid |-> S.bmcSid, records |-> Len(pre), event |-> ev.kind, at |-> ev.at],
-   steps |-> << [k |-> "rules", rules |-> Rules(pre, post, ev), state |-> [n |-> 0, phase |-> 0, valid |-> 0, resv |-> 100 + (Len(pre) % 7)]],
+   steps |-> << [k |-> "rules", rules |-> Rules(pre, post, ev), state |-> [n |-> 0, i |-> 0, phase |-> 0, valid |-> 0, resv |-> 100 + (Len(pre) % 7)]],
                 [k |-> "call", api |-> "RetrieveSDRRepository", label |-> "sdr", target |-> "sess", ctx |-> [ms |-> 20000],
                  exp |-> [prop |-> "C14", outcome |-> "sdrmapByRule", rule |-> "event",
                           ifFired |-> Snapshot(IF ev.kind = "modify" THEN post ELSE pre), ifNot |-> Snapshot(pre), maxreqs |-> 4 * (6 + 2 * (Len(pre) + Len(post)))]] >>]
@@ -136,7 +136,27 @@ Events ==
                         [kind |-> "loseresv", at |-> k, strict |-> strict, stamp |-> "add", keep |-> FALSE]) : k \in 1..WalkReqs(pre), strict \in BOOLEAN }
           : b \in bases }
 
-Scripts == CASE Family = "plain" -> Plainrepos [] Family = "events" -> Events
+\* a single fault at each request position of the retrieval (first / closing Get SDR Repository Info, Reserve, each Get
+\* SDR): a refusal (C1h), a reply that never comes (in a session: a transport error), an undecodable body. The retrieval
+\* has an outer retry, so the result must still be the whole repository - or an error, never a partial map
+FaultRule(cmd, ctr, at, kind) ==
+  [rule |-> "fault", when |-> <<IsCmd(cmd)>>, ifstate |-> <<St(ctr, at), St("f", 0)>>, effects |-> <<Inc(ctr), Set("f", 1)>>,
+   datagrams |-> CASE kind = "cc" -> Reply(DynMsgRsp(11, cmd, 193, B(<<>>)))
+                   [] kind = "short" -> Reply(DynMsgRsp(11, cmd, 0, B(<<7>>)))
+                   [] OTHER -> <<>>]
+FaultScript(id, pre, cmd, ctr, at, kind) ==
+  LET b == Script(id, pre, <<>>, NoEvent) IN
+  [b EXCEPT !.steps = << [b.steps[1] EXCEPT !.rules = << FaultRule(cmd, ctr, at, kind) >> \o @, !.state = @ @@ [f |-> 0, r |-> 0]],
+                         [b.steps[2] EXCEPT !.exp = [prop |-> "C14", outcome |-> "sdrmapByRule", rule |-> "fault", ifFired |-> Snapshot(pre), ifNot |-> Snapshot(pre),
+                                                     maxreqs |-> 8 * (6 + 2 * Len(pre))]] >>,
+             !.info = [b.info EXCEPT !.event = "fault-" \o kind]]
+Faults ==
+  UNION { LET pre == Repo(bb[1] * 10 + bb[2] + Seed, bb[1], (bb[2] % 2) = 0) IN
+          { FaultScript("fault-sdr-" \o ToString(bb[1]) \o "-" \o ToString(k) \o "-" \o kind, pre, 35, "n", k - 1, kind) : k \in 1..WalkReqs(pre), kind \in {"cc", "lost", "short"} }
+          \cup { FaultScript("fault-info-" \o ToString(bb[1]) \o "-" \o ToString(i) \o "-" \o kind, pre, 32, "i", i, kind) : i \in 0..1, kind \in {"cc", "lost", "short"} }
+          \cup { FaultScript("fault-resv-" \o ToString(bb[1]) \o "-" \o kind, pre, 34, "r", 0, kind) : kind \in {"cc", "lost", "short"} }
+          : bb \in (IF Full THEN {<<3, 1>>, <<5, 2>>, <<2, 3>>} ELSE {<<3, 1>>}) }
+Scripts == CASE Family = "plain" -> Plainrepos [] Family = "events" -> Events [] Family = "faults" -> Faults
 Header == [header |-> TRUE, family |-> "sdr", defs |-> SessionDefs(S) @@ [ReqPlainT |-> ReqPlain(S)], stable |-> <<"SIK", "K1", "K2">>,
            session |-> SessionRecipes(S), prefixes |-> [hs |-> HandshakeSteps(S)]]
 ASSUME PrintT(<<"HEADER", ToJson(Header)>>)
